@@ -26,6 +26,7 @@ def bounds(tier, seed):
                                'callback log compared; grid n_word in %s x boundary alphabet via arrays'
                                % (4 if tier == 'quick' else 6, 'quick list' if tier == 'quick' else '1..52'),
             'b_array_class_vectors': 'all 4+16+64 vectors over {exact, inexact, over, under} for lengths 1..3 x formats n_word<=3 x 10 modes',
+            'bi_bigint_arrays': 'array writes of Python ints of up to 200 bits (some exact, some needing more than 64 bits after scaling) into 12 formats x 10 modes x 3 routes',
             'c_histories': 'BFS, 3 base formats x {scalar, array} roots, menu of 38 state-changing events (incl. writes whose value is an Fxp), depth %d with dedup and depth %d '
                            'without; 9 derived-result observations in every state' % ((4, 2) if tier == 'quick' else (6, 3)),
             'seed': seed}
@@ -42,6 +43,7 @@ def shards(tier, seed):
     for nw in (1, 2, 3):
         for signed in (True, False):
             out.append({'part': 'b', 'signed': signed, 'nw': nw})
+    out.append({'part': 'bi'})
     depth, depth_nd = (4, 2) if tier == 'quick' else (6, 3)
     for ri in range(len(ROOTS)):
         for first in range(N_FIRST):
@@ -117,6 +119,38 @@ def array_write(acc, fmt, r, o, ds, part, route='set_val'):
         acc.violation('callbacks', dict(case, vals=case['vals'][:40]), 'fmt=%s %s/%s array write: callbacks %s expected %s'
                       % (fmt.dtype, r, o, log, expected_log(eo, eu, ei)), {'part': part}, full=case)
     acc.sample(dict(case, vals=case['vals'][:4]), 1)
+
+
+def bigint_write(acc, fmt, r, o, ints, route, part):
+    """array write of Python integers some of which need more than 64 bits after scaling: flags and callbacks as for any write"""
+    rec = Recorder()
+    case = {'part': part, 'bigint': True, 'fmt': list(fmt), 'mode': [r, o], 'ints': list(ints), 'route': route}
+    q = [quantize((v, 0), fmt, r, o) for v in ints]
+    eo, eu, ei = any(e[1] for e in q), any(e[2] for e in q), any(e[3] for e in q)
+    acc.evaluations += 1
+    acc.transitions += 1
+    acc.nontrivial += 1
+    acc.outcome('flags=%d%d%d' % (eo, eu, ei))
+    try:
+        x = mk([0] * len(ints), fmt, r, o, callbacks=[rec])
+        del rec.log[:]
+        if route == 'set_val':
+            x.set_val(list(ints))
+        elif route == 'call':
+            x(np.array(ints, dtype=object))
+        else:
+            x[:] = list(ints)
+        fl, log, got = flags(x), sorted(rec.log), codes(x)
+    except Exception as e:
+        acc.violation('exception', case, 'fmt=%s %s/%s big-int array write %s raised %r' % (fmt.dtype, r, o, [v.bit_length() for v in ints], e),
+                      {'part': part, 'route': route})
+        return
+    if fl != (eo, eu, ei) or got != [e[0] for e in q]:
+        acc.violation('flags', case, 'fmt=%s %s/%s array write of ints with %s bits by %s: flags %s codes %s, expected %s %s'
+                      % (fmt.dtype, r, o, [v.bit_length() for v in ints], route, fl, got, (eo, eu, ei), [e[0] for e in q]), {'part': part, 'route': route})
+    elif log != expected_log(eo, eu, ei):
+        acc.violation('callbacks', case, 'fmt=%s %s/%s big-int array write: callbacks %s expected %s' % (fmt.dtype, r, o, log, expected_log(eo, eu, ei)),
+                      {'part': part, 'route': route})
 
 
 def class_values(fmt):
@@ -377,6 +411,28 @@ class System:
                 acc.violation('propagation', dict(case, derive=name), 'history %s: second operand carries inaccuracy but %s does not'
                               % (case['history'], name), {'part': 'c', 'derive': name})
             acc.outcome('derived_from_second')
+        # the same through explicit destinations: out= (function form), numpy out=, config.op_out, out_like=
+        shape = np.shape(x.val)
+
+        def dest():
+            return Fxp(np.zeros(shape) if shape else 0.0, True, 24, 8)
+        xc = x.deepcopy()
+        xc.config.op_out = dest()
+        routes = (('add(out=)', lambda: fx.add(x, w, out=dest())), ('np.add(out=)', lambda: np.add(w, x, out=dest())),
+                  ('mul(out=)', lambda: fx.mul(x, w, out=dest())), ('op_out', lambda: xc + w), ('add(out_like=)', lambda: fx.add(w, x, out_like=dest())),
+                  ('sub(out=) clean', lambda: fx.sub(x, y, out=dest())))
+        for name, f in routes:
+            acc.transitions += 1
+            try:
+                z = f()
+            except Exception as e:
+                acc.violation('exception', dict(case, derive=name), 'history %s: %s raised %r' % (case['history'], name, e), {'part': 'c', 'derive': name})
+                continue
+            must = inacc if name.endswith('clean') else True
+            if must and not z.status['inaccuracy']:
+                acc.violation('propagation', dict(case, derive=name), 'history %s: an operand carries inaccuracy but the result of %s does not'
+                              % (case['history'], name), {'part': 'c', 'derive': name})
+            acc.outcome('derived_via_out')
 
 
 # ------------------------------------------------------------------------------------------ driver
@@ -428,6 +484,19 @@ def run_shard(sh):
                     ds = [cv[c] for c in vec]
                     for (r, o) in MODES:
                         array_write(acc, fmt, r, o, ds, 'b', ('set_val', 'call', 'setitem')[n - 1])
+    elif part == 'bi':
+        for signed in (True, False):
+            for nw, nf in ((4, 0), (8, 2), (16, 8), (32, 16), (52, 0), (33, 33)):
+                fmt = Fmt(signed, nw, nf)
+                ex = fmt.hi >> max(nf, 0) if nf >= 0 else fmt.hi        # an integer that is stored exactly
+                vecs = [[2 ** 70, ex], [ex, 2 ** 70], [-2 ** 70, 0, 2 ** 70], [ex, 2 ** 63], [2 ** 62, ex], [-2 ** 63 - 1, ex], [ex, 0], [2 ** 64, 2 ** 64],
+                        [2 ** 200 + 1, -2 ** 200]]
+                for ints in vecs:
+                    if not signed and any(v < 0 for v in ints) and False:
+                        continue
+                    for (r, o) in MODES:
+                        for route in ('set_val', 'call', 'setitem'):
+                            bigint_write(acc, fmt, r, o, ints, route, 'bi')
     elif part == 'c':
         system = System(ROOTS[sh['root']])
         roots = [()] if sh['first'] is None else [(MENU[sh['first']],)]
@@ -451,6 +520,8 @@ def replay(case):
         except Disabled:
             return []
         system.check(st, h, acc)
+    elif case.get('bigint'):
+        bigint_write(acc, Fmt(*case['fmt']), case['mode'][0], case['mode'][1], case['ints'], case['route'], part)
     elif 'vals' in case:
         array_write(acc, Fmt(*case['fmt']), case['mode'][0], case['mode'][1], [tuple(d) for d in case['vals']], part, case.get('route', 'set_val'))
     else:
